@@ -462,6 +462,107 @@ fn cancel_cases() -> Vec<CCase> {
     v
 }
 
+
+// ---------------------------------------------------------------------------
+// (a2) the database-level transitions themselves, dropped after every poll count
+// ---------------------------------------------------------------------------
+
+/// `delete_collection`, `close_collection` and `AndaDB::close` are mutating calls too (the property
+/// lists them): dropped at a suspension point they must leave no partial effect or retire the
+/// retained handle. The observable partial effect of a half-done delete / close is a handle that is
+/// still Active while the database no longer knows the collection: a write it acknowledges lands
+/// under a prefix no restart will find (seeded change C06-3).
+#[derive(Clone, Debug, Serialize, Deserialize)]
+pub struct TCCase {
+    pub transition: Transition,
+    pub k: u8,
+    pub pre: Vec<DocSpec>,
+    pub unflushed: Vec<DocSpec>,
+}
+
+fn tcancel_cases() -> Vec<TCCase> {
+    let mut v = vec![];
+    for transition in [Transition::DeleteCollection, Transition::CloseCollection, Transition::DatabaseClose] {
+        for k in 0..64u8 {
+            v.push(TCCase { transition, k, pre: vec![fresh_spec(1), fresh_spec(2)], unflushed: vec![fresh_spec(3)] });
+        }
+    }
+    v
+}
+
+pub fn run_tcancel_case(case: &TCCase, ctx: &mut CaseCtx) -> Result<(), String> {
+    vf_core::block_on(async {
+        let env = setup(&case.pre, &case.unflushed, yielding).await?;
+        let k = case.k as usize;
+        let what = format!("{:?} dropped after {k} polls", case.transition);
+        let idx = IndexSet::all();
+        let done = {
+            let db = &env.db;
+            let t = case.transition;
+            let fut = async move {
+                match t {
+                    Transition::DeleteCollection => db.delete_collection("docs").await.map_err(|e| e.to_string()),
+                    Transition::CloseCollection => db.close_collection("docs").await.map_err(|e| e.to_string()),
+                    _ => db.close().await.map_err(|e| e.to_string()),
+                }
+            };
+            drop_after(fut, k).await
+        };
+        if done.is_some() {
+            ctx.label("completed_before_the_drop");
+        }
+        // what the retained handle still acknowledges
+        let marker = fresh_spec(77).fields();
+        let added = match make_doc(&env.col, &marker) {
+            Ok(d) => env.col.add(d).await.ok(),
+            Err(_) => None,
+        };
+        let flushed = if added.is_some() { env.col.flush(anda_db::unix_ms()).await.is_ok() } else { false };
+        ctx.label(format!("{:?}:{}", case.transition, if added.is_some() { "retained_handle_still_accepts" } else { "retained_handle_refuses" }));
+        // restart over the same storage
+        let store: Arc<dyn ObjectStore> = Arc::new(CtlStore::new(env.mem.clone(), Ctl::new()));
+        let db2 = connect(store, false).await.map_err(|e| format!("{what}: the database does not reopen: {e}"))?;
+        let listed = db2.open_collection("docs".to_string(), async |_c: &mut Collection| Ok(())).await;
+        match (added, flushed, listed) {
+            (Some(id), true, Ok(col2)) => {
+                // acknowledged add + flush on the retained handle: the restart must find it
+                match col2.get(id).await {
+                    Ok(d) if doc_fields(&d) == marker => {}
+                    other => return Err(format!("{what}: the retained handle acknowledged add -> {id} and a flush afterwards, after a restart document {id} is {:?}", other.map(|d| doc_fields(&d)).map_err(|e| e.to_string()))),
+                }
+                let mut rec = Model::new();
+                for i in col2.ids() {
+                    rec.insert(i, doc_fields(&col2.get(i).await.map_err(|e| format!("{what}: document {i} unreadable after restart: {e}"))?));
+                }
+                check_indexes(&col2, &rec, &idx, &format!("{what}: restarted")).await?;
+            }
+            (Some(id), true, Err(e)) => {
+                return Err(format!(
+                    "{what}: the retained handle stayed {:?} and acknowledged add -> {id} and a flush, but after a restart the database has no collection 'docs' any more ({e}): the acknowledged write went to a prefix nothing will find",
+                    env.col.state()
+                ));
+            }
+            (_, _, Ok(col2)) => {
+                // the handle refused (or its flush failed): whatever survives must be consistent
+                let mut rec = Model::new();
+                for i in col2.ids() {
+                    rec.insert(i, doc_fields(&col2.get(i).await.map_err(|e| format!("{what}: document {i} unreadable after restart: {e}"))?));
+                }
+                check_indexes(&col2, &rec, &idx, &format!("{what}: restarted")).await?;
+            }
+            (_, _, Err(_)) => {
+                // the collection is gone: legitimate only for a delete that got far enough
+                if case.transition != Transition::DeleteCollection {
+                    return Err(format!("{what}: after a restart the collection does not open although it was never deleted"));
+                }
+                ctx.label("deleted_for_good");
+            }
+        }
+        ctx.nontrivial = done.is_none() && env.ctl.log_len() > 0;
+        Ok(())
+    })
+}
+
 // ---------------------------------------------------------------------------
 // (b) a transition racing in-flight operations
 // ---------------------------------------------------------------------------
@@ -962,6 +1063,13 @@ pub fn run(r: &mut Runner) {
         true,
         cancel_cases(),
         run_cancel_case,
+    );
+    r.sub_enum(
+        "transition_cancellation_every_poll",
+        "delete_collection, close_collection and AndaDB::close x every poll count k in 0..63 over a store that yields before and after every backend call: the transition's future is polled k times and dropped; then the RETAINED handle is asked for an add and a flush, and the database is restarted over the same storage. Oracle: if the retained handle acknowledged the add and the flush, the restart finds the collection and the document (no acknowledged write under a prefix nothing will find); a collection that was not deleted reopens; whatever reopens has consistent indexes. Non-trivial = the future was dropped before completion after backend work had started",
+        true,
+        tcancel_cases(),
+        run_tcancel_case,
     );
     let budget = r.tier.pick(800usize, 40_000usize);
     r.sub_enum(
